@@ -452,10 +452,19 @@ def sh_asym3(x, a, b, c):
     return a + b / (1 + c * x)
 
 
+def sh_sqrt2(x, a, b):
+    return a + b * np.sqrt(x)
+
+
+def sh_growth2(x, a, b):
+    return a * (1 - np.exp(-b * x))
+
+
 RANDOM_SHAPES = {
     "lin": (sh_lin, (1.0, 0.7), True), "poly2": (sh_poly2, (0.8, 0.5, 0.1), True),
     "power3": (sh_power3, (0.6, 1.1, 1.3), False), "exp3": (sh_exp3, (0.5, 0.8, 0.25), False),
     "logistic4": (sh_logistic4, (0.8, 1.5, -1.2, 2.5), False), "asym3": (sh_asym3, (0.3, 1.2, 0.6), False),
+    "sqrt2": (sh_sqrt2, (0.6, 1.4), True), "growth2": (sh_growth2, (2.0, 0.6), False),
 }
 
 
@@ -493,6 +502,11 @@ def gen_single(rng, virocon, k):
     c["cons_kind"] = rng.choice(["none", "none", "none", "dict_inactive", "dict_active", "list_inactive", "list_active", "list2"])
     c["weights"] = rng.random() < 0.3
     c["noise"] = rng.choice([0.0, 0.01, 0.03])
+    if k % 7 == 5:      # exactly two free parameters with constraints AND bounds (a [[l0, l1], [u0, u1]] mix-up is silent only there)
+        c["shape"] = ("random", rng.choice(["lin", "sqrt2", "growth2"]))
+        c["bounds_kind"] = rng.choice(["lower", "upper", "both", "active", "mixed", "zero", "both"])
+        c["cons_kind"] = rng.choice(["dict_inactive", "dict_active", "list_inactive", "list_active", "list2"])
+        c["weights"] = False
     return c
 
 
@@ -589,6 +603,10 @@ def single_oracle(DP, F, virocon, c, want_calls=False):
         return ("fail", {"clause": "bounds", "site": "fit_function", "kind": "equal-bounds"},
                 "%s: bounds %r with lower == upper (a parameter held fixed, the docstring's own example `0 <= z <= 0`) make fit raise ValueError "
                 "on the curve_fit path instead of returning parameters inside the bounds" % (R["name"], R["bounds"]), calls)
+    if exc in ("ValueError", "TypeError") and R["cons"] is not None:
+        # SLSQP has no minimum number of points and clips the start into the box: with valid declared bounds it has no reason to reject
+        return ("fail", {"clause": "bounds", "site": "fit_constrained_function", "kind": "raises"},
+                "%s: fit with bounds %r and %d constraint(s) raises %s: %s" % (R["name"], R["bounds"], len(cons_list(R["cons"])), exc, exc_msg[:120]), calls)
     if exc is not None:
         return ("unjudgeable", None, "optimiser raised " + exc, calls)
     p = np.array([float(v) for v in dep.parameters.values()])
@@ -698,15 +716,45 @@ def coq_dispatch_case(R, calls, exc):
 
 
 # ---------------------------------------------------------------------- ConditionalDistribution.fit loop
+TEMPLATES = [("Weibull", {}), ("Weibull", {}), ("Weibull", {"f_alpha": 2.0}), ("Weibull", {"f_beta": 1.7}), ("Weibull", {"f_gamma": 0.1}),
+             ("Weibull", {"f_alpha": 2.0, "f_beta": 1.7}), ("Weibull", {"f_beta": 1.7, "f_gamma": 0.1}),
+             ("LogNormal", {}), ("LogNormal", {"f_mu": 0.5}), ("LogNormal", {"f_sigma": 0.3}),
+             ("Normal", {"f_mu": 1.0}), ("Normal", {"f_sigma": 0.8})]
+
+
+def make_template(virocon, t):
+    fam, fixed = t
+    cls = {"Weibull": virocon.WeibullDistribution, "LogNormal": virocon.LogNormalDistribution, "Normal": virocon.NormalDistribution}[fam]
+    return cls(**fixed)
+
+
+def interval_data(virocon, fam, nint, r, rd=0):
+    """per-interval samples whose fitted parameters vary with the interval"""
+    out = []
+    for i in range(nint):
+        rs = int(r.integers(1 << 30))
+        if fam == "Weibull":
+            out.append(virocon.WeibullDistribution(alpha=1 + i + rd, beta=1.5 + 0.2 * i, gamma=0.1).draw_sample(25, random_state=rs))
+        elif fam == "LogNormal":
+            out.append(virocon.LogNormalDistribution(mu=0.3 + 0.2 * i + 0.1 * rd, sigma=0.2 + 0.05 * i).draw_sample(25, random_state=rs))
+        else:
+            out.append(virocon.NormalDistribution(mu=0.5 + 0.4 * i + 0.1 * rd, sigma=0.5 + 0.1 * i).draw_sample(25, random_state=rs))
+    return out
+
+
 def cond_dist_case(rng, k):
-    """chains among the dependence functions of the three parameters of one Weibull distribution"""
-    names = ["alpha", "beta", "gamma"]
+    """chains among the dependence functions of the conditional parameters of one distribution; the template may hold
+    parameters FIXED in first / middle / last position, so that the conditional ones are a proper subset of param_names"""
+    t = TEMPLATES[k % len(TEMPLATES)] if k < 2 * len(TEMPLATES) else rng.choice(TEMPLATES)
+    allp = {"Weibull": ["alpha", "beta", "gamma"], "LogNormal": ["mu", "sigma"], "Normal": ["mu", "sigma"]}[t[0]]
+    names = [p for p in allp if "f_" + p not in t[1]]
     perm = list(names)
-    rng.shuffle(perm)                       # creation order of the three functions = perm
-    ctbl = [[], [0] if rng.random() < 0.8 else [], rng.choice([[0], [1], [0, 1], []])]
+    rng.shuffle(perm)                       # creation order of the functions = perm
+    ctbl = [[], [0] if rng.random() < 0.8 else [], rng.choice([[0], [1], [0, 1], []])][:len(names)]
     decl = list(names)
     rng.shuffle(decl)                       # order of the keys in the `parameters` dict
-    return {"kind": "conddist", "perm": perm, "ctbl": ctbl, "decl": decl, "rounds": rng.choice([1, 2]), "seed": rng.randrange(1 << 30)}
+    return {"kind": "conddist", "perm": perm, "ctbl": ctbl, "decl": decl, "rounds": rng.choice([1, 2]), "seed": rng.randrange(1 << 30),
+            "template": [t[0], dict(t[1])]}
 
 
 def run_cond_dist(virocon, DP, F, c, mode="tag"):
@@ -714,7 +762,8 @@ def run_cond_dist(virocon, DP, F, c, mode="tag"):
     by_name = {nm: deps[i] for i, nm in enumerate(c["perm"])}
     params = {nm: by_name[nm] for nm in c["decl"]}
     from virocon.distributions import ConditionalDistribution
-    cd = ConditionalDistribution(virocon.WeibullDistribution(), params)
+    tmpl = c.get("template") or ["Weibull", {}]
+    cd = ConditionalDistribution(make_template(virocon, tmpl), params)
     idx = {id(f): j for j, f in enumerate(deps)}
     r = np.random.default_rng([c["seed"], 143])
     ys_rounds = []
@@ -722,8 +771,7 @@ def run_cond_dist(virocon, DP, F, c, mode="tag"):
     with Rec(F, mode) as rec:
         for rd in range(c["rounds"]):
             nint = int(r.integers(3, 6))
-            data = [virocon.WeibullDistribution(alpha=1 + i + rd, beta=1.5 + 0.2 * i, gamma=0.1).draw_sample(25, random_state=int(r.integers(1 << 30)))
-                    for i in range(nint)]
+            data = interval_data(virocon, tmpl[0], nint, r, rd)
             cv = [0.5 + i for i in range(nint)]
             cd.fit(data, cv, [(v - 0.5, v + 0.5) for v in cv], "mle")
             ys_rounds.append({nm: [float(p[nm]) for p in cd.parameters_per_interval] for nm in cd.param_names})
@@ -736,7 +784,7 @@ def run_cond_dist(virocon, DP, F, c, mode="tag"):
                     return 10 * rd + pi
         return 99
     log = [(idx[id(cl["func"])], tag_of(cl["y"])) for cl in rec.calls]
-    ops = [(idx[id(by_name[nm])], 10 * rd + pi) for rd in range(c["rounds"]) for pi, nm in enumerate(cd.param_names)]
+    ops = [(idx[id(by_name[nm])], 10 * rd + pi) for rd in range(c["rounds"]) for pi, nm in enumerate(cd.param_names) if nm in by_name]
     terms = {}
     conds = model_conds(deps)
     for cl in rec.calls:
@@ -750,6 +798,44 @@ def run_cond_dist(virocon, DP, F, c, mode="tag"):
            "fc": [sorted(idx[id(x)] for x in f._fitted_conditioners) for f in deps]}
     template_same = dict(cd.distribution.parameters) == template_before
     return {"ctbl": c["ctbl"], "ops": ops}, obs, template_same
+
+
+def cond_dist_real_oracle(virocon, DP, c):
+    """real optimiser: every conditional parameter gets a dependence function a + b*x; after ConditionalDistribution.fit each
+    must be the linear least-squares line through (conditioning value, per-interval estimate OF ITS OWN PARAMETER)"""
+    from virocon.distributions import ConditionalDistribution
+    tmpl = c["template"]
+    dist = make_template(virocon, tmpl)
+    names = [p for p in dist.parameters if getattr(dist, "f_" + p) is None]
+
+    def line(x, a, b):
+        return a + b * x
+    order = names if not c.get("reverse") else names[::-1]
+    params = {nm: DP.DependenceFunction(line) for nm in order}
+    cd = ConditionalDistribution(dist, params)
+    r = np.random.default_rng([c["seed"], 144])
+    nint = c.get("nint", 5)
+    data = interval_data(virocon, tmpl[0], nint, r)
+    cv = [0.5 + i for i in range(nint)]
+    try:
+        cd.fit(data, cv, [(v - 0.5, v + 0.5) for v in cv], "mle")
+    except RuntimeError:
+        return None
+    x = np.asarray(cv, dtype=float)
+    A = np.c_[np.ones_like(x), x]
+    for nm in names:
+        y = np.array([float(pp[nm]) for pp in cd.parameters_per_interval])
+        ref = np.linalg.lstsq(A, y, rcond=None)[0]
+        got = np.array([float(v) for v in cd.conditional_parameters[nm].parameters.values()])
+        s_ref, s_got = float(np.sum((A @ ref - y) ** 2)), float(np.sum((A @ got - y) ** 2))
+        if s_got > s_ref * (1 + 1e-6) + 1e-9 * max(1.0, float(np.sum(y * y))):
+            others = {o: [round(float(pp[o]), 4) for pp in cd.parameters_per_interval] for o in cd.param_names if o != nm}
+            return ({"clause": "conditional-fit-data", "site": "ConditionalDistribution.fit"},
+                    "%sDistribution(%s), conditional %r: the dependence function of %s holds %r, the least-squares line through its per-interval "
+                    "estimates %r is %r (residual %.4g vs %.4g); estimates of the other parameters: %r"
+                    % (tmpl[0], ", ".join("%s=%r" % kv for kv in tmpl[1].items()), names, nm, [round(float(v), 5) for v in got],
+                       [round(float(v), 4) for v in y], [round(float(v), 5) for v in ref], s_got, s_ref, others))
+    return "ok"
 
 
 # ---------------------------------------------------------------------- chains: all declaration x call orders
@@ -949,6 +1035,11 @@ def replay(ctx, rp):
         for w in c.v[:3]:
             print("  ", w)
         return bool(c.v)
+    if rp.get("kind") == "conddist-real":
+        o = cond_dist_real_oracle(virocon, DP, rp["case"])
+        if isinstance(o, tuple):
+            print("  ", o[1])
+        return isinstance(o, tuple)
     if rp.get("kind") == "single":
         st, sig, msg, _ = single_oracle(DP, F, virocon, rp["case"])
         if st == "fail":
@@ -1042,6 +1133,30 @@ def run(ctx):
         if not template_same:
             ctx.violation({"clause": "template", "site": "ConditionalDistribution.fit"},
                           "ConditionalDistribution.fit changed the template's own parameters", {"kind": "conddist", "case": c})
+
+    # real optimiser: each conditional parameter is regressed on ITS OWN per-interval estimates (templates with fixed parameters)
+    ncd_real = {"judged": 0, "unjudgeable": 0}
+    cd_fail = None
+    for k in range(ctx.n(2, 8) * len(TEMPLATES)):
+        cc = {"template": [TEMPLATES[k % len(TEMPLATES)][0], dict(TEMPLATES[k % len(TEMPLATES)][1])], "seed": rng.randrange(1 << 30),
+              "reverse": bool(k % 2), "nint": rng.randrange(3, 7)}
+        o = cond_dist_real_oracle(virocon, DP, cc)
+        ctx.count(("conddist-real", str(cc["template"]), cc["reverse"], cc["nint"], cc["seed"]), o is not None)
+        if o is None:
+            ncd_real["unjudgeable"] += 1
+            continue
+        ncd_real["judged"] += 1
+        if isinstance(o, tuple) and cd_fail is None:
+            small = cc
+            for ni in (3, 4):       # shrink: fewer intervals
+                if ni < cc["nint"]:
+                    o2 = cond_dist_real_oracle(virocon, DP, dict(cc, nint=ni))
+                    if isinstance(o2, tuple):
+                        small, o = dict(cc, nint=ni), o2
+                        break
+            cd_fail = True
+            ctx.violation(o[0], o[1], {"kind": "conddist-real", "case": small})
+    ctx.notes["conditional_fit_real_optimiser"] = ncd_real
 
     # ---------------- (d) single functions: dispatch correspondence + property oracle
     n_single = ctx.n(700, 8000)
